@@ -39,7 +39,11 @@ for pth in pats:
     if a.returncode != 0:
         a = subprocess.run(['patch', '-p1', '-d', scratch, '-i', pth], stdout=subprocess.PIPE, stderr=subprocess.STDOUT, text=True)
     if a.returncode != 0:
-        rows.append((pid, name, 'PATCH-DOES-NOT-APPLY', '', 0, TAG)); record(rows[-1]); shutil.rmtree(scratch, ignore_errors=True); print(rows[-1], flush=True); continue
+        prev = done.get(name)
+        verdict = 'PATCH-DOES-NOT-APPLY'
+        if prev and len(prev) >= 3 and not prev[2].startswith('PATCH-DOES-NOT-APPLY'):
+            verdict += ' on this tree (overlaps a later fix); earlier: %s%s' % (prev[2], (' on ' + prev[5]) if len(prev) >= 6 and prev[5] else '')
+        rows.append((pid, name, verdict, prev[3] if prev and len(prev) >= 4 else '', 0, TAG)); record(rows[-1]); shutil.rmtree(scratch, ignore_errors=True); print(rows[-1], flush=True); continue
     t0 = time.time()
     r = subprocess.run([sys.executable, os.path.join(VERIF, 'tools', 'vcheck.py'), pid, '--tier', 'quick', '--repo', scratch, '--no-evidence'],
                        cwd=VERIF, stdout=subprocess.PIPE, stderr=subprocess.STDOUT, text=True)
